@@ -15,8 +15,8 @@
 #ifndef CHAIN
 #define CHAIN 10
 #endif
-#define MAXR 32
-#define MAXS 16
+#define MAXR 64
+#define MAXS 32
 static const char *names[MAXS]; static char namebuf[MAXS][8];
 static int nrules, lhs[MAXR], len[MAXR], rhs[MAXR][3];     /* symbol indices; index TERM = terminal */
 static int TERM;                                            /* index of the terminal 'a' */
